@@ -48,6 +48,17 @@ pub fn accept_check(buf: &[u8], loc: &mut Local) {
                 if df_code(&f) != lay.df {
                     loc.viol("acceptance", format!("{}:df", lay.leaf), hex(buf), format!("DF{}", lay.df), format!("DF{}", df_code(&f)));
                 }
+                // the statement characterises the rejection set exactly: an operational-status report whose
+                // reserved bits or version are outside the version 0-2 layout is rejected
+                if lay.may_reject {
+                    loc.viol(
+                        "acceptance",
+                        format!("{}:accepted-outside-version-0-2-layout", lay.leaf),
+                        hex(buf),
+                        "Err (reserved bits non-zero or version > 2)".into(),
+                        format!("Ok(DF{})", df_code(&f)),
+                    );
+                }
                 loc.outcomes.insert(u64::from(lay.df) << 32 | u64::from(f.crc));
             }
             Decoded::Err(e) => {
@@ -224,7 +235,7 @@ pub fn run(tier: Tier) -> i32 {
         "exploration",
         cov,
         vec![
-            "acceptance set = DESIGN.md 3 C02: DF {0,4,5,11} with >= 7 bytes, DF {16..21, 24..31} with >= 14 bytes; only permitted extra rejection: type 31 subtype 0/1 with non-zero reserved bits (ME 9-10, 13-14 airborne, 25-26) or version > 2; a permitted rejection that is accepted is not flagged".into(),
+            "acceptance set = DESIGN.md 3 C02: DF {0,4,5,11} with >= 7 bytes, DF {16..21, 24..31} with >= 14 bytes; the rejection set is characterised exactly: type 31 subtype 0/1 with non-zero reserved bits (ME 9-10, 13-14 airborne, 25-26) or version > 2 is rejected, nothing else is".into(),
             "payload bits are explored through the context alphabet and bit-walks, not all 2^112 values".into(),
         ],
     )
